@@ -2,8 +2,13 @@
 Spec: Batch.tla (+ Shapes.tla).  TLC enumerates every (parameter batch P, data batch D1, data batch D2) of rank 0..2 over
 sizes {1,2,3}, checks the broadcasting algebra and the code-shaped parameter alignments, and dumps for every broadcastable
 triple every output element b with its replica indices; the replay compares element b of the batched object with the
-non-batched replica (parameter slice p applied to data slices d1, d2)."""
+non-batched replica (parameter slice p applied to data slices d1, d2).
+Kernel structure: the same triple read as (A, B, D) places two parameter batch shapes on the nodes of a composite kernel
+(A = () / B = (): the composite inherits its batch shape from a sub-kernel); size coincidences: every case is replayed with a generic
+number of rows and with the number of rows equal to the feature size and to the size of every batch axis (Shapes.tla ShCoClass).
+Model lists: TLC enumerates every sequence of member kinds (homogeneous and heterogeneous)."""
 import os
+import re
 import zlib
 from concurrent.futures import ThreadPoolExecutor
 
@@ -12,7 +17,11 @@ from harness import core, tlc
 LEVEL = "model_checking"
 PID = "C08"
 
-NPTS, MPTS, DFEAT, NCO = 4, 3, 2, 3          # rows of x1 / x2, feature dimension, "coinciding" number of rows (an axis size)
+NPTS, MPTS, DFEAT = 4, 3, 2                  # rows of x1 / x2 (generic: NPTS is the size of no batch axis), feature dimension
+MAXMEMBERS = 3                               # longest model list
+# rejected variants of the code that the lattice must be able to tell from the code (Batch.tla Variants): the diag heuristic counting
+# the batch axes of what the node OWNS instead of the kernel's batch shape; get_fantasy_model carrying a noise entry over a None entry
+VARIANTS = {"diag_own_batch", "fantasy_noise_carry"}
 NTRAIN, NTEST, NIND, NUM_DATA = 5, 3, 3, 17
 KTOL = (1e-10, 1e-10)                        # kernels / means / likelihood: rtol, atol
 MTOL = (1e-7, 1e-9)                          # posterior / mll / elbo
@@ -25,16 +34,26 @@ REPAIRED = set(filter(None, os.environ.get("VERIF_C08_REPAIRED", "rq_alpha,const
 
 SITES = ["lengthscale_x1", "lengthscale_x2", "outputscale_full", "outputscale_diag", "rq_alpha_full", "rq_alpha_diag",
          "constant_mean", "linear_mean_weights", "linear_mean_bias", "noise", "const_kernel_full", "const_kernel_diag",
-         "var_inducing_values", "multitask_task_covar", "call_diag", "call_diag_nco", "call_diag_ignored"]
+         "var_inducing_values", "multitask_task_covar", "call_diag", "call_diag_n1", "call_diag_n2", "call_diag_n3", "call_diag_ignored"]
 
 
 # =============================================================================================
 # TLC
 # =============================================================================================
-def write_cfg(workdir, name, sites, invariants):
+STRUCTS = ["scale(leaf)", "sum(leaf,leaf)", "prod(leaf,leaf)", "sum(scale(leaf),leaf)", "prod(scale(leaf),leaf)", "scale(scale(leaf))",
+           "scale(sum(leaf,leaf))", "sum(scale(prod(leaf,leaf)),leaf)"]             # Batch.tla StructNames
+STRUCT_SPLIT = [STRUCTS[0:3] + STRUCTS[5:6], STRUCTS[3:5] + STRUCTS[6:8]]           # two structure runs of about the same cost
+
+
+ALLROWS = False       # thorough tier: the structure predictions of Batch.tla range over every row count, not only over those the case is replayed with
+
+
+def write_cfg(workdir, name, sites, invariants, family="triple", struct=()):
     os.makedirs(workdir, exist_ok=True)
     cfg = os.path.join(workdir, "Batch_%s.cfg" % name)
-    tlc.write_cfg(cfg, spec="Spec", constants={"Dims": {1, 2, 3}, "MaxRank": 2, "NPts": NPTS, "MPts": MPTS, "DFeat": DFEAT, "NCo": NCO,
+    tlc.write_cfg(cfg, spec="Spec", constants={"Dims": {1, 2, 3}, "MaxRank": 2, "NPts": NPTS, "MPts": MPTS, "DFeat": DFEAT,
+                                               "Family": family, "WithStruct": bool(struct), "CheckStructs": set(struct), "AllRows": bool(ALLROWS), "MaxMembers": MAXMEMBERS,
+                                               "Variants": set(VARIANTS),
                                                "CheckSites": set(sites), "Repaired": set(REPAIRED)}, invariants=invariants)
     return cfg
 
@@ -43,24 +62,42 @@ def _t(x):
     return [int(v) for v in x]
 
 
+# every state is an initial state and the only action is a stutter: TLC's -coverage has nothing to report and makes the evaluation of the
+# recursive operators of the structure section several times slower
+NOCOV = dict(coverage=False)
+STRUCT_INVARIANTS = ["StructBatchIsBroadcast", "CoincidencesCovered", "StructAligned", "HeuristicNeedsCoincidence"]
+
+
 def run_tlc(ck):
-    """Returns (cases, rejected, predictions).  Generation, algebra and per-site alignment runs."""
+    """Returns (cases, rejected, predictions, list configurations).  Generation, structure, model-list, algebra and per-site alignment runs."""
+    global ALLROWS
+    ALLROWS = ck.tier == "thorough"
     wd = os.path.join(tlc.BUILD, PID, "mc")
-    with ThreadPoolExecutor(max_workers=8) as ex:
-        f_alg = ex.submit(tlc.run, "Batch", write_cfg(wd, "algebra", [], ["Algebra"]), name=PID + "/algebra", check=False, workers=2, timeout=900)
-        gen = tlc.run("Batch", write_cfg(wd, "gen", [], ["RepsComplete"]), name=PID + "/gen", dump=True, check=False, workers=2, timeout=900)
-        ck.add_tlc(gen, "Batch gen (every triple, every b, replica indices, site predictions)")
+    with ThreadPoolExecutor(max_workers=4) as ex:
+        # kernel structure + size coincidences (the triple read as (A, B, D)): -continue so that the dump is complete when the model of the
+        # code predicts a failing cell (StructAligned), which is then a prediction for the replay like a failing site
+        f_str = [ex.submit(tlc.run, "Batch", write_cfg(wd, "struct%d" % i, [], STRUCT_INVARIANTS, struct=part), name=PID + "/struct%d" % i, dump=True,
+                           check=False, workers=1, timeout=900, extra=["-continue"], **NOCOV) for i, part in enumerate(STRUCT_SPLIT)]
+        f_alg = ex.submit(tlc.run, "Batch", write_cfg(wd, "algebra", [], ["Algebra", "CoincidencesCovered"]), name=PID + "/algebra", check=False, workers=2, timeout=900, **NOCOV)
+        gen = tlc.run("Batch", write_cfg(wd, "gen", [], ["RepsComplete", "ListIndependent"], family="both"), name=PID + "/gen", dump=True, check=False,
+                      workers=2, timeout=900, **NOCOV)
+        ck.add_tlc(gen, "Batch gen (every triple, every b, replica indices, site predictions, row counts with their coincidence classes; every sequence of member kinds of a model list)")
         if gen.violation is not None or gen.rc != 0:
             raise tlc.TLCError("Batch.tla generation run failed (%s):\n%s" % ((gen.violation or {}).get("name"), gen.stdout[-1500:]))
-        cases, rejected = [], []
+        cases, rejected, configs = [], [], []
         for st in gen.states():
             c = st["c"]
+            if "kinds" in c:         # model lists: a sequence of member kinds (output i of every operation reads member i only)
+                configs.append(dict(kinds=[str(k) for k in c["kinds"]], noise=_t(c["noise"]), hetero=bool(c["hetero"]),
+                                    variant_leaks=any(set(d) != {i + 1} for op in c["vdeps"].values() for i, d in enumerate(op))))
+                continue
             if not c["ok"]:
                 rejected.append([_t(c["P"]), _t(c["D1"]), _t(c["D2"])])
                 continue
             cases.append(dict(P=_t(c["P"]), D1=_t(c["D1"]), D2=_t(c["D2"]), out=_t(c["out"]), y=_t(c["y"]),
                               reps=[dict(b=_t(r["b"]), p=_t(r["p"]), d1=_t(r["d1"]), d2=_t(r["d2"]), y=_t(r["y"])) for r in c["reps"]],
-                              pred={str(k): str(v) for k, v in c["pred"].items()}))
+                              pred={str(k): str(v) for k, v in c["pred"].items()},
+                              rows=[dict(n=int(r["n"]), batch=bool(r["batch"]), co=_co_label(r)) for r in c["rows"]]))
         if not cases or not rejected:
             ck.vacuous("Batch.tla produced %d broadcastable and %d rejected triples" % (len(cases), len(rejected)))
         if cases and sorted(cases[0]["pred"]) != sorted(SITES):
@@ -68,11 +105,54 @@ def run_tlc(ck):
         failing = {s: [c for c in cases if c["pred"][s] != "ok"] for s in SITES}
         clean = [s for s in SITES if not failing[s]]
         futs = {"<all sites predicted clean>": ex.submit(tlc.run, "Batch", write_cfg(wd, "sites_clean", clean, ["SitesAligned"]),
-                                                         name=PID + "/sites_clean", check=False, workers=2, timeout=900)}
+                                                         name=PID + "/sites_clean", check=False, workers=2, timeout=900, **NOCOV)}
         for s in SITES:
             if failing[s]:
                 futs[s] = ex.submit(tlc.run, "Batch", write_cfg(wd, "site_" + s, [s], ["SitesAligned"]), name=PID + "/site_" + s,
-                                    check=False, workers=2, timeout=900)
+                                    check=False, workers=2, timeout=900, **NOCOV)
+        # ---- model lists
+        configs.sort(key=lambda c: (len(c["kinds"]), c["kinds"]))
+        if not any(c["variant_leaks"] for c in configs) or not any(c["hetero"] for c in configs):
+            ck.vacuous("Batch.tla model lists: no configuration of member kinds tells the variant fantasy_noise_carry from the code (%d configurations)" % len(configs))
+        # ---- kernel structure
+        by = {(tuple(c["P"]), tuple(c["D1"]), tuple(c["D2"])): c for c in cases}
+        for c in cases:
+            c["sbad"], c["vbad"] = [], []
+        viol = set()
+        for i, f in enumerate(f_str):
+            stt = f.result()
+            ck.add_tlc(stt, "Batch kernel structure %d/%d (composite kernels with own / inherited batch shapes x row counts of every coincidence class): %s" % (
+                i + 1, len(f_str), ", ".join(STRUCT_SPLIT[i])))
+            if stt.rc != 0 and stt.violation is None:
+                raise tlc.TLCError("TLC failed on the structure run:\n%s" % stt.stdout[-1500:])
+            viol |= set(re.findall(r"Error: Invariant (\w+) is violated", stt.stdout))
+            if viol - {"StructAligned"}:
+                raise tlc.TLCError("Batch.tla: %s violated:\n%s" % (sorted(viol), stt.stdout[-1500:]))
+            seen = 0
+            for st in stt.states():
+                c = st["c"]
+                if not c["ok"]:
+                    continue
+                seen += 1
+                k = by[(tuple(_t(c["P"])), tuple(_t(c["D1"])), tuple(_t(c["D2"])))]
+                k["sbad"] = sorted(k["sbad"] + [[str(x[0]), str(x[1]), int(x[2]), str(x[3])] for x in c["sbad"]])
+                k["vbad"] = sorted(k["vbad"] + [[str(x[0]), str(x[1]), int(x[2]), str(x[3])] for x in c["vbad"]])
+            if seen != len(cases):
+                raise core.Machinery("the structure run dumped %d broadcastable triples, the generation run %d" % (seen, len(cases)))
+        if sorted(x for part in STRUCT_SPLIT for x in part) != sorted(STRUCTS) or set(v[1] for v in struct_catalogue().values()) != set(STRUCTS):
+            raise core.Machinery("the structures of checks/c08.py and Batch.tla StructNames differ")
+        nsb = sum(1 for c in cases if c["sbad"])
+        if bool(nsb) != ("StructAligned" in viol):
+            raise tlc.TLCError("TLC and the dumped structure predictions disagree on StructAligned")
+        if nsb:
+            ex0 = next(c for c in cases if c["sbad"])
+            ck.model_drift("Batch.tla: the model of the current code violates StructAligned on %d of %d triples, e.g. (A, B, D) = %s %s %s: %s - a prediction "
+                           "the replay has to confirm" % (nsb, len(cases), ex0["P"], ex0["D1"], ex0["D2"], ex0["sbad"][:3]))
+        nvb = sum(1 for c in cases if c["vbad"] != [x for x in c["sbad"] if x[1] in ("diag", "lazydiag")])      # (the variants touch the diag modes only)
+        if not nvb and "call_diag" in REPAIRED:      # (the heuristic of the pinned commit reads no batch shape of the kernel: the variant is the code)
+            ck.vacuous("Batch.tla kernel structure: no (structure, A, B, D, rows) cell tells the variant diag_own_batch from the code")
+        ck.section("tlc", structure_triples_where_variant_diag_own_batch_differs=nvb, structure_triples_predicted_failing=nsb,
+                   list_configurations=len(configs), list_configurations_where_variant_fantasy_noise_carry_leaks=sum(c["variant_leaks"] for c in configs))
         alg = f_alg.result()
         ck.add_tlc(alg, "Batch algebra invariants")
         if alg.violation is not None or alg.rc != 0:
@@ -96,7 +176,22 @@ def run_tlc(ck):
             ck.model_drift("Batch.tla: site %s (model of the current code) violates SitesAligned on %d of %d triples (predicted %s), e.g. P=%s D1=%s D2=%s "
                            "- a prediction the replay has to confirm" % (s, len(failing[s]), len(cases), "/".join(kinds),
                                                                          failing[s][0]["P"], failing[s][0]["D1"], failing[s][0]["D2"]))
-    return cases, rejected, preds
+    return cases, rejected, preds, configs
+
+
+def _co_label(r):
+    """coincidence class of a row count (Shapes.tla ShCoClass over the broadcast batch + `batch`: any axis of P, D1, D2)"""
+    co = r["co"]
+    lab = []
+    if co["rows"]:
+        lab.append("n=axis" + ",".join(str(k) for k in sorted(co["rows"])))
+    elif r["batch"]:
+        lab.append("n=inner-axis")
+    if co["rowsfeat"]:
+        lab.append("n=d")
+    if co["square"]:
+        lab.append("n=m")
+    return "+".join(lab) or "generic"
 
 
 # =============================================================================================
@@ -154,14 +249,70 @@ def kernel_catalogue():
     return cat
 
 
+def struct_catalogue():
+    """Composite kernels whose nodes own the batch shapes A and B of the case (@1: built without batch_shape, shared by all batch elements).
+    name: (factory(A, B), structure of Batch.tla).  A = (): the composite INHERITS its batch shape from the sub-kernel that owns B (and vice
+    versa).  The leaves are non-stationary wherever the structure allows it: the diagonal of a stationary kernel is the same number at every
+    point, so a diagonal taken from the wrong element can coincide with the right one by broadcasting."""
+    import torch
+    from gpytorch import kernels as K
+    d = DFEAT
+    S = torch.Size
+    return {
+        "Scale@A(Linear@B)": (lambda A, B: K.ScaleKernel(K.LinearKernel(batch_shape=S(B)), batch_shape=S(A)), "scale(leaf)"),
+        "Scale@A(Polynomial2@B)": (lambda A, B: K.ScaleKernel(K.PolynomialKernel(power=2, batch_shape=S(B)), batch_shape=S(A)), "scale(leaf)"),
+        "Scale@A(RBF_ARD@B)": (lambda A, B: K.ScaleKernel(K.RBFKernel(ard_num_dims=d, batch_shape=S(B)), batch_shape=S(A)), "scale(leaf)"),
+        "Linear@A+Polynomial2@B": (lambda A, B: K.LinearKernel(batch_shape=S(A)) + K.PolynomialKernel(power=2, batch_shape=S(B)), "sum(leaf,leaf)"),
+        "Matern1.5@A+Linear_ARD@B": (lambda A, B: K.MaternKernel(nu=1.5, batch_shape=S(A)) + K.LinearKernel(ard_num_dims=d, batch_shape=S(B)), "sum(leaf,leaf)"),
+        "Linear@A*Polynomial3@B": (lambda A, B: K.LinearKernel(batch_shape=S(A)) * K.PolynomialKernel(power=3, batch_shape=S(B)), "prod(leaf,leaf)"),
+        "Polynomial2@A*Periodic@B": (lambda A, B: K.PolynomialKernel(power=2, batch_shape=S(A)) * K.PeriodicKernel(batch_shape=S(B)), "prod(leaf,leaf)"),
+        "Scale@1(Linear@A)+RBF@B": (lambda A, B: K.ScaleKernel(K.LinearKernel(batch_shape=S(A))) + K.RBFKernel(batch_shape=S(B)), "sum(scale(leaf),leaf)"),
+        "Scale@1(Polynomial2@A)+Linear@B": (lambda A, B: K.ScaleKernel(K.PolynomialKernel(power=2, batch_shape=S(A))) + K.LinearKernel(batch_shape=S(B)),
+                                            "sum(scale(leaf),leaf)"),
+        "Scale@1(Linear@A)*Matern2.5@B": (lambda A, B: K.ScaleKernel(K.LinearKernel(batch_shape=S(A))) * K.MaternKernel(nu=2.5, batch_shape=S(B)),
+                                          "prod(scale(leaf),leaf)"),
+        "Scale@1(Scale@A(Linear@B))": (lambda A, B: K.ScaleKernel(K.ScaleKernel(K.LinearKernel(batch_shape=S(B)), batch_shape=S(A))), "scale(scale(leaf))"),
+        "Scale@A(Linear@B+Constant@1)": (lambda A, B: K.ScaleKernel(K.LinearKernel(batch_shape=S(B)) + K.ConstantKernel(), batch_shape=S(A)),
+                                         "scale(sum(leaf,leaf))"),
+        "Scale@1(Linear@A*Polynomial2@B)+Linear_ARD@1": (lambda A, B: K.ScaleKernel(K.LinearKernel(batch_shape=S(A)) * K.PolynomialKernel(power=2, batch_shape=S(B)))
+                                                         + K.LinearKernel(ard_num_dims=d), "sum(scale(prod(leaf,leaf)),leaf)"),
+    }
+
+
+# quick tier: these composites on every triple whose placement is not "mixed" (and a sample of the mixed ones), the others on a sample
+STRUCT_QUICK_FULL = ("Scale@A(Linear@B)", "Scale@1(Linear@A)+RBF@B")
+
+
+def placement(A, B):
+    """which nodes of the composite own a batch shape"""
+    if not A and not B:
+        return "none"
+    if not A:
+        return "inherit"
+    if not B:
+        return "own"
+    return "both" if list(A) == list(B) else "mixed"
+
+
+DIAG_BASES = ("diag", "diag-self", "lazy-diag")
+
+
+def mode_rows(mode):
+    """(base mode, number of rows of x1): 'diag-n3' -> ('diag', 3); without suffix the generic NPTS"""
+    m = re.match(r"^(.*)-n(\d+)$", mode)
+    return (m.group(1), int(m.group(2))) if m else (mode, NPTS)
+
+
 def kernel_sites(name, mode):
     """The sites of Batch.tla that model the parameter alignment of this kernel in this mode (for prediction vs observation)."""
-    diag = mode.startswith("diag")
+    base, n = mode_rows(mode)
+    diag = base in DIAG_BASES
     s = []
-    if diag and name == "Index":
-        s.append("call_diag_ignored")
-    elif diag and not name.startswith(("Multitask", "LCM")):      # (their diagonal has n * num_tasks entries)
-        s.append("call_diag_nco" if mode == "diag-n3" else "call_diag")
+    if base in ("diag", "diag-self"):        # Kernel.__call__(diag=True); the lazy diagonal calls forward
+        if name == "Index":
+            s.append("call_diag_ignored")
+        elif not name.startswith(("Multitask", "LCM")):      # (their diagonal has n * num_tasks entries)
+            s.append("call_diag" if n == NPTS else "call_diag_n%d" % n)
     if name.startswith("RQ"):
         s.append("rq_alpha_diag" if diag else "rq_alpha_full")
     if name == "Constant":
@@ -229,20 +380,27 @@ def _dense(torch, r):
     return r if torch.is_tensor(r) else r.to_dense()
 
 
-def _cls(case):
-    """cell class of a triple: rank relation between data and parameters, and whether the parameters widen the data batch"""
+def _cls(case, struct=False):
+    """cell class of a triple: rank relation between data and parameters, and whether the parameters widen the data batch
+    (struct: the triple is (A, B, D): parameters = broadcast(A, B), data = D)"""
     import torch
-    dd = list(torch.broadcast_shapes(tuple(case["D1"]), tuple(case["D2"])))
-    rk = "data-rank>param-rank" if len(dd) > len(case["P"]) else "data-rank<=param-rank"
-    wd = "param-widens-batch" if dd != list(case["out"]) else "param-within-data-batch"
+    if struct:
+        dd, pp = list(case["D2"]), list(torch.broadcast_shapes(tuple(case["P"]), tuple(case["D1"])))
+    else:
+        dd, pp = list(torch.broadcast_shapes(tuple(case["D1"]), tuple(case["D2"]))), list(case["P"])
+    rk = "data-rank>param-rank" if len(dd) > len(pp) else "data-rank<=param-rank"
+    out = list(case["out"])
+    wd = "param-widens-batch" if dd != out else "param-within-data-batch"
+    if struct and dd != out and out == [1] * (len(out) - len(dd)) + dd:
+        wd = "param-adds-unit-axes"          # the parameters add leading batch axes of size 1 and nothing else
     return rk + "/" + wd
 
 
-def _tri(case):
-    return "P=%s D1=%s D2=%s" % (tuple(case["P"]), tuple(case["D1"]), tuple(case["D2"]))
+def _tri(case, struct=False):
+    return ("A=%s B=%s D=%s" if struct else "P=%s D1=%s D2=%s") % (tuple(case["P"]), tuple(case["D1"]), tuple(case["D2"]))
 
 
-def _compare_elements(torch, out, case, ref_of, tol, what, index_key="b"):
+def _compare_elements(torch, out, case, ref_of, tol, what, index_key="b", struct=False):
     """out: batched tensor; ref_of(rep) -> replica tensor.  Returns (outcome, detail): outcome None when every element agrees."""
     shape_of = dict(b=case["out"], y=case["y"], p=case["P"])[index_key]
     seen = set()
@@ -254,7 +412,7 @@ def _compare_elements(torch, out, case, ref_of, tol, what, index_key="b"):
         seen.add(idx)
         ok, ref = core.guarded(ref_of, rep)
         if not ok:
-            raise core.Machinery("the non-batched replica failed on %s (%s): %s" % (_tri(case), what, ref))
+            raise core.Machinery("the non-batched replica failed on %s (%s): %s" % (_tri(case, struct), what, ref))
         if first:
             first = False
             want = tuple(shape_of) + tuple(ref.shape)
@@ -262,18 +420,21 @@ def _compare_elements(torch, out, case, ref_of, tol, what, index_key="b"):
                 return "shape", "%s has shape %s; batch %s of replicas of shape %s is %s" % (what, tuple(out.shape), tuple(shape_of), tuple(ref.shape), want)
         good, why = core.close(out[idx], ref, *tol)
         if not good:
-            return "values", "%s[%s] differs from the replica (parameters[%s], data1[%s], data2[%s]): %s" % (
-                what, ",".join(map(str, idx)), ",".join(map(str, rep["p"])), ",".join(map(str, rep["d1"])), ",".join(map(str, rep["d2"])), why)
+            return "values", "%s[%s] differs from the replica (%s): %s" % (
+                what, ",".join(map(str, idx)), ("parameters@A[%s], parameters@B[%s], data[%s]" if struct else "parameters[%s], data1[%s], data2[%s]") % (
+                    ",".join(map(str, rep["p"])), ",".join(map(str, rep["d1"])), ",".join(map(str, rep["d2"]))), why)
     return None, ""
 
 
-def _result(kind, name, mode, case, seed, outcome, detail, n, extra_case=None):
-    """one cell = (module, mode, triple).  Signature: C08/<kind>/<module>/<mode>/<rank class>/<widening class>/<raises|shape|values>"""
+def _result(kind, name, mode, case, seed, outcome, detail, n, extra_case=None, struct=False):
+    """one cell = (module, mode, triple).  Signature: C08/<kind>/<module>/<mode>/<rank class>/<widening class>/<raises|shape|values>;
+    composite kernels (struct): C08/kernel/<module>/<mode>/<placement of the batch shapes>/<rank class>/<widening class>/<outcome>"""
     key = [kind, name, mode, case["P"], case["D1"], case["D2"]]
     r = dict(key=key, ok=outcome is None, nontrivial=len(case["reps"]) >= 2, n=max(1, n))
     if outcome is not None:
-        r["sig"] = "C08/%s/%s/%s/%s/%s" % (kind, name, mode, _cls(case) if kind != "modellist" else "members", outcome)
-        r["detail"] = "%s %s %s [%s]: %s" % (kind, name, _tri(case), mode, detail)
+        cls = "members" if kind == "modellist" else (placement(case["P"], case["D1"]) + "/" + _cls(case, True)) if struct else _cls(case)
+        r["sig"] = "C08/%s/%s/%s/%s/%s" % (kind, name, mode, cls, outcome)
+        r["detail"] = "%s %s %s [%s]: %s" % (kind, name, _tri(case, struct), mode, detail)
         r["case"] = dict(kind=kind, name=name, mode=mode, seed=seed, case={k: v for k, v in case.items() if k != "pred"}, **(extra_case or {}))
     r["cell"] = (name, mode, tuple(case["P"]), tuple(case["D1"]), tuple(case["D2"]))
     return r
@@ -282,63 +443,111 @@ def _result(kind, name, mode, case, seed, outcome, detail, n, extra_case=None):
 # =============================================================================================
 # kernels
 # =============================================================================================
-N3_KERNELS = ("RBF", "Scale(Matern2.5_ARD)", "Linear_ARD", "Index", "RQ")
+# kernels of the plain catalogue replayed with the row counts of every coincidence class (not only the generic NPTS)
+CO_KERNELS = ("RBF", "Scale(Matern2.5_ARD)", "Linear_ARD", "Index", "RQ", "Linear", "Scale@1(RBF@b)", "RBF@b+Linear@1")
+NO_LAZY_DIAG = ("Index",)          # forward ignores diag: LazyEvaluatedKernelTensor.diagonal() raises, batched or not
+
+
+def _suffix(n):
+    return "" if n == NPTS else "-n%d" % n
 
 
 def kernel_modes(name, case, thorough):
     """full: k(x1, x2); self: k(x1); diag: k(x1, x2', diag=True) with x2' of the shape of x1; diag-self: k(x1, diag=True);
-    diag-n3: diag with as many rows as an axis of the batch is long (3)"""
+    lazy-diag: k(x1, x2').diagonal(); <mode>-n<k>: x1 (and x2' / the x2 of self) with k rows, k = the feature size / the size of a batch axis"""
     modes = ["full"]
     if thorough:
         modes.append("full-eager")
-    if case["D1"] == case["D2"]:
-        modes += ["self", "diag", "diag-self"] + (["diag-n3"] if name in N3_KERNELS else [])
+    unary = case["D1"] == case["D2"]
+    if unary:
+        lazy = name not in NO_LAZY_DIAG and (thorough or name in QUICK_FULL_KERNELS or name in CO_KERNELS)
+        modes += ["self", "diag", "diag-self"] + (["lazy-diag"] if lazy else [])
+    if name in CO_KERNELS:
+        for r in case["rows"]:
+            if r["n"] == NPTS or not (thorough or r["batch"]):      # quick: the row counts that coincide with a batch axis
+                continue
+            if unary:
+                modes += ["diag-n%d" % r["n"]] + ([] if name in NO_LAZY_DIAG or not thorough else ["lazy-diag-n%d" % r["n"]])
+            if unary or thorough:
+                modes.append("full-n%d" % r["n"])
+    return modes
+
+
+def struct_modes(name, case, thorough, full, seed=0):
+    """composite kernels (the triple is (A, B, D): x1 and x2 share the data batch D).  thorough: every mode with every row count of the case.
+    quick, `full`: the row counts that coincide with a batch axis (Batch.tla HeuristicNeedsCoincidence: the only place where a heuristic on the
+    trailing sizes can go wrong) with diag and lazy-diag, plus diag-self and the matrices when it is the last axis; the other row counts
+    (generic, = feature size) on a quarter of the triples.  quick, not `full` (sampled triples): diag modes with every row count, matrices with the generic one"""
+    modes = []
+    last = case["out"][-1] if case["out"] else None
+    others = thorough or not full or _seed(seed, "generic rows", name, case["P"], case["D1"], case["D2"]) % 4 == 0
+    for r in case["rows"]:
+        sf = _suffix(r["n"])
+        if not (r["batch"] or others):
+            continue
+        modes += ["diag" + sf, "lazy-diag" + sf]
+        if thorough or (full and r["n"] in (last, NPTS)):
+            modes.append("diag-self" + sf)
+        if thorough or r["n"] == NPTS or (full and r["n"] == last):
+            modes += ["full" + sf, "self" + sf]
+    if thorough:
+        modes.append("full-eager")
     return modes
 
 
 def _kernel_eval(torch, k, x1, x2, mode):
     import gpytorch
-    if mode == "full":
+    base = mode_rows(mode)[0]
+    if base == "full":
         return _dense(torch, k(x1, x2))
-    if mode == "full-eager":
+    if base == "full-eager":
         with gpytorch.settings.lazily_evaluate_kernels(False):
             return _dense(torch, k(x1, x2))
-    if mode == "self":          # no_grad: the exact-zero diagonal of the x1 == x2 path (with grad it carries sqrt(eps) noise)
+    if base == "self":          # no_grad: the exact-zero diagonal of the x1 == x2 path (with grad it carries sqrt(eps) noise)
         with torch.no_grad():
             return _dense(torch, k(x1))
-    if mode == "diag-self":
+    if base == "diag-self":
         with torch.no_grad():
             return _dense(torch, k(x1, diag=True))
+    if base == "lazy-diag":     # what MultivariateNormal(mean, k(x1, x2)).variance reads
+        return k(x1, x2).diagonal(dim1=-1, dim2=-2)
+    if base != "diag":
+        raise core.Machinery("unknown kernel mode " + mode)
     return _dense(torch, k(x1, x2, diag=True))
 
 
-def kernel_cell(torch, name, make, kind, kb, reps_cache, case, mode, seed):
+def kernel_cell(torch, name, make, kind, kb, reps_cache, case, mode, seed, struct=False):
     P, D1, D2 = case["P"], case["D1"], case["D2"]
     g = _gen(torch, seed, "data", name, P, D1, D2, mode)
-    n = NCO if mode == "diag-n3" else NPTS
-    x1 = _data(torch, kind, D1, n, g)
-    x2 = _data(torch, kind, D2, n if mode.startswith("diag") else MPTS, g)
+    base, n = mode_rows(mode)
+    i1, i2 = ("d2", "d2") if struct else ("d1", "d2")          # struct: (P, D1, D2) = (A, B, D), both inputs have batch shape D
+    x1 = _data(torch, kind, D2 if struct else D1, n, g)
+    x2 = _data(torch, kind, D2, n if base in DIAG_BASES else MPTS, g)
     ok, out = core.guarded(_kernel_eval, torch, kb, x1, x2, mode)
+
+    def replica(rep):
+        key = (tuple(rep["p"]), tuple(rep["d1"])) if struct else tuple(rep["p"])
+        if key not in reps_cache:
+            if struct:
+                # the parameters of a node have batch shape A, B or broadcast(A, B) (a ScaleKernel sizes its outputscale by the batch shape of
+                # the kernel under it): Batch.tla KPar
+                reps_cache[key] = _copy_state(kb, make((), ()).double(), {tuple(case["y"]): tuple(rep["y"]), tuple(P): tuple(rep["p"]),
+                                                                         tuple(D1): tuple(rep["d1"]), (): ()})
+            else:
+                reps_cache[key] = _copy_state(kb, make(()).double(), {tuple(P): tuple(rep["p"]), (): ()})
+        return reps_cache[key]
     if not ok:
         # the replicas must be fine, otherwise the harness is at fault
         rep = case["reps"][0]
-        ok2, r2 = core.guarded(_kernel_eval, torch, _kernel_replica(torch, make, kb, P, rep["p"], reps_cache), x1[tuple(rep["d1"])], x2[tuple(rep["d2"])], mode)
+        ok2, r2 = core.guarded(_kernel_eval, torch, replica(rep), x1[tuple(rep[i1])], x2[tuple(rep[i2])], mode)
         if not ok2:
-            raise core.Machinery("kernel %s: the non-batched replica fails too on %s [%s]: %s" % (name, _tri(case), mode, r2))
-        return _result("kernel", name, mode, case, seed, "raises", "the batched kernel raises %s; every replica evaluates" % out, len(case["reps"]))
+            raise core.Machinery("kernel %s: the non-batched replica fails too on %s [%s]: %s" % (name, _tri(case, struct), mode, r2))
+        return _result("kernel", name, mode, case, seed, "raises", "the batched kernel raises %s; every replica evaluates" % out, len(case["reps"]), struct=struct)
 
     def ref_of(rep):
-        kr = _kernel_replica(torch, make, kb, P, rep["p"], reps_cache)
-        return _kernel_eval(torch, kr, x1[tuple(rep["d1"])], x2[tuple(rep["d2"])], mode)
-    outcome, detail = _compare_elements(torch, out, case, ref_of, KTOL, "K" if not mode.startswith("diag") else "diag(K)")
-    return _result("kernel", name, mode, case, seed, outcome, detail, len(case["reps"]))
-
-
-def _kernel_replica(torch, make, kb, P, p, cache):
-    key = tuple(p)
-    if key not in cache:
-        cache[key] = _copy_state(kb, make(()).double(), {tuple(P): tuple(p), (): ()})
-    return cache[key]
+        return _kernel_eval(torch, replica(rep), x1[tuple(rep[i1])], x2[tuple(rep[i2])], mode)
+    outcome, detail = _compare_elements(torch, out, case, ref_of, KTOL, "diag(K)" if base in DIAG_BASES else "K", struct=struct)
+    return _result("kernel", name, mode, case, seed, outcome, detail, len(case["reps"]), struct=struct)
 
 
 def kernel_worker(item):
@@ -353,6 +562,26 @@ def kernel_worker(item):
     for case in item["cases"]:
         for mode in kernel_modes(name, case, item["thorough"]):
             out.append(kernel_cell(torch, name, make, kind, kb, cache, case, mode, seed))
+    return out
+
+
+def struct_worker(item):
+    """composite kernels: item = (name, A, B) with every case whose P = A and D1 = B"""
+    torch = core.setup_torch()
+    name, A, B, seed = item["name"], item["A"], item["B"], item["seed"]
+    make = struct_catalogue()[name][0]
+    ok, kb = core.guarded(lambda: _randomize(torch, make(tuple(A), tuple(B)), _gen(torch, seed, "params", name, A, B)))
+    if not ok:
+        raise core.Machinery("cannot construct kernel %s with batch shapes A=%s B=%s: %s" % (name, A, B, kb))
+    import torch as _t
+    if list(kb.batch_shape) != list(_t.broadcast_shapes(tuple(A), tuple(B))):
+        return [_result("kernel", name, "batch_shape", item["cases"][0], seed, "shape", "kernel.batch_shape is %s, the nodes own %s and %s" % (
+            tuple(kb.batch_shape), tuple(A), tuple(B)), 1, struct=True)]
+    cache = {}
+    out = []
+    for case in item["cases"]:
+        for mode in struct_modes(name, case, item["thorough"], item["full"], seed):
+            out.append(kernel_cell(torch, name, make, "real", kb, cache, case, mode, seed, struct=True))
     return out
 
 
@@ -452,16 +681,22 @@ def exact_variants():
                                             + K.ScaleKernel(K.LinearKernel(batch_shape=S(B)), batch_shape=S(B))),
         "Constant+Scale(Periodic*RBF)": (lambda B: means.ConstantMean(batch_shape=S(B)),
                                          lambda B: K.ScaleKernel(K.PeriodicKernel(batch_shape=S(B)) * K.RBFKernel(batch_shape=S(B)), batch_shape=S(B))),
+        # a composite that inherits its batch shape (the ScaleKernel and the sum are built without batch_shape), non-stationary member
+        "Constant+Scale@1(Linear@b)+Matern2.5@b": (lambda B: means.ConstantMean(batch_shape=S(B)),
+                                                   lambda B: K.ScaleKernel(K.LinearKernel(batch_shape=S(B))) + K.MaternKernel(nu=2.5, batch_shape=S(B))),
     }
 
 
-def _exact_model(torch, variant, B, tx, ty):
+INHERITING_EXACT = "Constant+Scale@1(Linear@b)+Matern2.5@b"
+
+
+def _exact_model(torch, variant, B, tx, ty, lik=None):
     import gpytorch
     mean_f, kern_f = exact_variants()[variant]
 
     class _EGP(gpytorch.models.ExactGP):
         def __init__(self):
-            super().__init__(tx, ty, gpytorch.likelihoods.GaussianLikelihood(batch_shape=torch.Size(B)))
+            super().__init__(tx, ty, lik if lik is not None else gpytorch.likelihoods.GaussianLikelihood(batch_shape=torch.Size(B)))
             self.mean_module = mean_f(B)
             self.covar_module = kern_f(B)
 
@@ -497,18 +732,22 @@ def exact_worker(item):
         def train_side():
             o = mb(tx)
             mll = gpytorch.mlls.ExactMarginalLogLikelihood(mb.likelihood, mb)(o, ty)
-            return o.mean, o.covariance_matrix, mll
+            return o.mean, o.covariance_matrix, mll, mb(tx).variance
         ok, res = core.guarded(train_side)
 
-        def rtrain(rep, which):
-            mr = replica(mb, rep)
-            mr.train()
-            rx = tx[tuple(rep["d1"])]
-            o = mr(rx)
-            if which == 2:
-                return gpytorch.mlls.ExactMarginalLogLikelihood(mr.likelihood, mr)(o, ty[tuple(rep["y"])])
-            return o.mean if which == 0 else o.covariance_matrix
-        for which, mode in enumerate(["prior-mean", "prior-covariance", "mll"]):
+        memo_t = {}
+
+        def rtrain(rep, which):          # one replica per (parameter, data, target) index: the four observations come from the same replica
+            key = (tuple(rep["p"]), tuple(rep["d1"]), tuple(rep["y"]))
+            if key not in memo_t:
+                mr = replica(mb, rep)
+                mr.train()
+                rx = tx[tuple(rep["d1"])]
+                o = mr(rx)
+                mll = gpytorch.mlls.ExactMarginalLogLikelihood(mr.likelihood, mr)(o, ty[tuple(rep["y"])])
+                memo_t[key] = (o.mean, o.covariance_matrix, mll, mr(rx).variance)
+            return memo_t[key][which]
+        for which, mode in enumerate(["prior-mean", "prior-covariance", "mll", "prior-variance"]):
             if not ok:
                 out.append(_result("exact", name, mode, ycase, seed, "raises", "the batched model raises %s" % res, len(ycase["reps"])))
                 continue
@@ -523,15 +762,20 @@ def exact_worker(item):
 
         def post():
             p = mb(x2)
-            return p.mean, p.covariance_matrix, mb.likelihood(p).covariance_matrix
+            return p.mean, p.covariance_matrix, mb.likelihood(p).covariance_matrix, mb(x2).variance
         ok, res = core.guarded(post)
 
+        memo_p = {}
+
         def rpost(rep, which):
-            mr = replica(mb, rep)
-            mr.eval()
-            p = mr(x2[tuple(rep["d2"])])
-            return p.mean if which == 0 else p.covariance_matrix if which == 1 else mr.likelihood(p).covariance_matrix
-        for which, mode in enumerate(["posterior-mean", "posterior-covariance", "predictive-covariance"]):
+            key = (tuple(rep["p"]), tuple(rep["d1"]), tuple(rep["d2"]), tuple(rep["y"]))
+            if key not in memo_p:
+                mr = replica(mb, rep)
+                mr.eval()
+                p = mr(x2[tuple(rep["d2"])])
+                memo_p[key] = (p.mean, p.covariance_matrix, mr.likelihood(p).covariance_matrix, mr(x2[tuple(rep["d2"])]).variance)
+            return memo_p[key][which]
+        for which, mode in enumerate(["posterior-mean", "posterior-covariance", "predictive-covariance", "posterior-variance"]):
             if not ok:
                 out.append(_result("exact", name, mode, case, seed, "raises", "the batched model raises %s" % res, len(case["reps"])))
                 continue
@@ -622,14 +866,18 @@ def svgp_worker(item):
             return qm, qc, kl, elbo
         ok, res = core.guarded(side)
 
-        def rside(rep, which):
-            mr, lr = replica(mb, lb, rep)
-            if which < 3:
-                mr.eval()
+        memo = {}
+
+        def rside(rep, which):           # one replica per element b: the four observations come from the same replica, in the order of side()
+            key = tuple(rep["b"])
+            if key not in memo:
+                mr, lr = replica(mb, lb, rep)
+                mr.eval(), lr.eval()
                 q = mr(x[tuple(rep["d1"])])
-                return q.mean if which == 0 else q.covariance_matrix if which == 1 else mr.variational_strategy.kl_divergence()
-            mr.train(), lr.train()
-            return gpytorch.mlls.VariationalELBO(lr, mr, num_data=NUM_DATA)(mr(x[tuple(rep["d1"])]), y[tuple(rep["b"])])
+                qm, qc, kl = q.mean, q.covariance_matrix, mr.variational_strategy.kl_divergence()
+                mr.train(), lr.train()
+                memo[key] = (qm, qc, kl, gpytorch.mlls.VariationalELBO(lr, mr, num_data=NUM_DATA)(mr(x[tuple(rep["d1"])]), y[tuple(rep["b"])]))
+            return memo[key][which]
         for which, (mode, key) in enumerate([("q(f)-mean", "b"), ("q(f)-covariance", "b"), ("kl", "b"), ("elbo", "b")]):
             if not ok:
                 out.append(_result("svgp", name, mode, case, seed, "raises", "the batched model raises %s" % res, len(case["reps"])))
@@ -642,76 +890,170 @@ def svgp_worker(item):
 # =============================================================================================
 # IndependentModelList / SumMarginalLogLikelihood: members with batch shapes P, D1, D2 (they need not have anything in common)
 # =============================================================================================
+NFANT = 2                                    # fantasy points per member (the same number for every member)
+LIST_OPS = ("call_train", "call_eval", "likelihood", "sum_mll", "fantasy", "fantasy_fast_pred_var")     # Batch.tla ListOps
+
+
+def _member_likelihood(torch, kind, B, n, g):
+    """Batch.tla MemberKinds"""
+    from gpytorch import likelihoods as L
+    if kind == "gaussian":
+        return L.GaussianLikelihood(batch_shape=torch.Size(B))
+    noise = 0.05 + 0.2 * torch.rand(*B, n, generator=g, dtype=torch.float64)
+    if kind == "fixed":
+        return L.FixedNoiseGaussianLikelihood(noise)
+    if kind == "fixed_learn":
+        return L.FixedNoiseGaussianLikelihood(noise, learn_additional_noise=True, batch_shape=torch.Size(B))
+    raise core.Machinery("unknown member kind " + kind)
+
+
+def _list_side(torch, gpytorch, models, tests, fant, noise_arg, fast, as_list):
+    """Every operation of Batch.tla ListOps on an IndependentModelList of `models` (as_list) or on every model on its own.
+    Returns {op: ("ok", [per-member tensors]) | ("raises", message)}"""
+    import contextlib
+    res = {}
+    ml = gpytorch.models.IndependentModelList(*models) if as_list else None
+
+    def run(op, fn):
+        ok, r = core.guarded(fn)
+        res[op] = ("ok", r) if ok else ("raises", r)
+
+    def fl(dists):
+        return [[d.mean, d.covariance_matrix] for d in dists]
+    with (gpytorch.settings.fast_pred_var() if fast else contextlib.nullcontext()):
+        if not fast:
+            for m in models:
+                m.train()
+            if as_list:
+                run("call_train", lambda: fl(ml(*ml.train_inputs)))
+                run("sum_mll", lambda: [gpytorch.mlls.SumMarginalLogLikelihood(ml.likelihood, ml)(ml(*ml.train_inputs), ml.train_targets)])
+            else:
+                run("call_train", lambda: fl([m(*m.train_inputs) for m in models]))
+                run("sum_mll", lambda: [gpytorch.mlls.ExactMarginalLogLikelihood(m.likelihood, m)(m(*m.train_inputs), m.train_targets) for m in models])
+        for m in models:
+            m.eval()
+        if as_list:
+            run("call_eval", lambda: fl(ml(*tests)))                 # (also fills the caches the fantasy update starts from)
+            if not fast:
+                run("likelihood", lambda: fl(ml.likelihood(*ml(*tests))))
+        else:
+            run("call_eval", lambda: fl([m(t) for m, t in zip(models, tests)]))
+            if not fast:
+                run("likelihood", lambda: fl([m.likelihood(m(t)) for m, t in zip(models, tests)]))
+        op = "fantasy_fast_pred_var" if fast else "fantasy"
+        if as_list:
+            run(op, lambda: fl(ml.get_fantasy_model([f[0] for f in fant], [f[1] for f in fant], noise=list(noise_arg))(*tests)))
+        else:
+            # a member whose entry of the noise list is None gets no noise argument
+            outs, errs = [], []
+            for m, f, nz, t in zip(models, fant, noise_arg, tests):
+                ok, r = core.guarded(lambda: fl([m.get_fantasy_model(f[0], f[1], **({} if nz is None else dict(noise=nz)))(t)])[0])
+                outs.append(r if ok else None)
+                errs.append(None if ok else r)
+            res[op] = ("ok", outs) if not any(errs) else ("raises", "; ".join("member %d: %s" % (i, e) for i, e in enumerate(errs) if e))
+    return res
+
+
 def modellist_worker(item):
+    """IndependentModelList over heterogeneous members: kinds from Batch.tla (Family = "list"), batch shapes P, D1, D2 of the case, a different
+    mean / kernel per position.  Oracle: output i of every operation = the same operation on (a deep copy of) member i on its own."""
     torch = core.setup_torch()
     import copy
     import gpytorch
     seed = item["seed"]
     out = []
-    variant = "Constant+Scale(Matern2.5_ARD)"
-    for case in item["cases"]:
-        shapes = [case["P"], case["D1"], case["D2"]][:item["members"]]
-        g = _gen(torch, seed, "modellist", shapes)
-        members, tests = [], []
-        for i, B in enumerate(shapes):
+    variants = list(exact_variants())
+    for case, config in zip(item["cases"], item["configs"]):
+        kinds = config["kinds"]
+        shapes = [case["P"], case["D1"], case["D2"]][:len(kinds)]
+        g = _gen(torch, seed, "modellist", shapes, kinds)
+        members, tests, fant, noise_arg = [], [], [], []
+        for i, (B, kind) in enumerate(zip(shapes, kinds)):
             n = NTRAIN + i
             tx = torch.rand(*B, n, DFEAT, generator=g, dtype=torch.float64)
             ty = torch.randn(*B, n, generator=g, dtype=torch.float64)
-            members.append(_randomize(torch, _exact_model(torch, variant, tuple(B), tx, ty), g))
+            lik = _member_likelihood(torch, kind, B, n, g)
+            members.append(_randomize(torch, _exact_model(torch, variants[i % len(variants)], tuple(B), tx, ty, lik), g))
             tests.append(torch.rand(*B, NTEST + i, DFEAT, generator=g, dtype=torch.float64))
-        fresh = [copy.deepcopy(m) for m in members]              # the members on their own
-        ml = gpytorch.models.IndependentModelList(*members)
-
-        def listed():
-            ml.train()
-            outs = ml(*ml.train_inputs)
-            smll = gpytorch.mlls.SumMarginalLogLikelihood(ml.likelihood, ml)(outs, ml.train_targets)
-            tr = [(o.mean, o.covariance_matrix) for o in outs]
-            ml.eval()
-            ev = [(o.mean, o.covariance_matrix) for o in ml(*tests)]
-            pv = [(o.mean, o.covariance_matrix) for o in ml.likelihood(*ml(*tests))]
-            return tr, smll, ev, pv
-        ok, res = core.guarded(listed)
-        key_case = dict(case, D1=case["D1"], D2=case["D2"])
-        nm = "IndependentModelList[%d]" % len(shapes)
-        if not ok:
-            out.append(_result("modellist", nm, "outputs", key_case, seed, "raises", "the model list raises %s" % res, len(shapes), dict(members=item["members"])))
-            continue
-        tr, smll, ev, pv = res
-        bad = None
-        mlls = []
-        for i, m in enumerate(fresh):
-            m.train()
-            o = m(*m.train_inputs)
-            mlls.append(gpytorch.mlls.ExactMarginalLogLikelihood(m.likelihood, m)(o, m.train_targets))
-            m.eval()
-            p = m(tests[i])
-            lp = m.likelihood(p)
-            for what, got, want in (("train-mode mean", tr[i][0], o.mean), ("train-mode covariance", tr[i][1], o.covariance_matrix),
-                                    ("posterior mean", ev[i][0], p.mean), ("posterior covariance", ev[i][1], p.covariance_matrix),
-                                    ("predictive covariance", pv[i][1], lp.covariance_matrix)):
-                good, why = core.close(got, want, *MTOL)
-                if not good and bad is None:
-                    bad = "member %d (batch shape %s): %s of the list differs from the member on its own: %s" % (i, tuple(shapes[i]), what, why)
-        out.append(_result("modellist", nm, "outputs", key_case, seed, None if bad is None else "values", bad or "", 5 * len(shapes), dict(members=item["members"])))
+            fant.append((torch.rand(*B, NFANT, DFEAT, generator=g, dtype=torch.float64), torch.randn(*B, NFANT, generator=g, dtype=torch.float64)))
+            fn = 0.3 + torch.rand(*B, NFANT, generator=g, dtype=torch.float64)
+            noise_arg.append(fn if config["noise"][i] else None)        # Batch.tla NoiseArg: the member's own tensor, or None
+        nm = "IndependentModelList[%s]" % ",".join(kinds)
+        extra = dict(config=config)
+        sides = {}
+        for fast in (False, True):
+            alone = _list_side(torch, gpytorch, [copy.deepcopy(m) for m in members], tests, fant, noise_arg, fast, False)
+            lst = _list_side(torch, gpytorch, [copy.deepcopy(m) for m in members], tests, fant, noise_arg, fast, True)
+            for op in lst:
+                if op in ("call_eval",) and fast:
+                    continue
+                sides[op] = (lst[op], alone[op])
+        if sorted(sides) != sorted(LIST_OPS):
+            raise core.Machinery("model list operations %s differ from Batch.tla ListOps" % sorted(sides))
+        groups = {"outputs": ("call_train", "call_eval", "likelihood"), "fantasy": ("fantasy",), "fantasy-fast_pred_var": ("fantasy_fast_pred_var",)}
+        for mode, ops in groups.items():
+            bad, n, both_raise = None, 0, False
+            for op in ops:
+                (ls, lv), (as_, av) = sides[op]
+                if ls == "raises" and as_ == "raises":
+                    both_raise = True       # the list fails where a member fails on its own: nothing of the list's to compare
+                    continue
+                if ls == "raises":
+                    bad = bad or ("raises", "%s: the model list raises %s; every member on its own works" % (op, lv))
+                    continue
+                if as_ == "raises":
+                    bad = bad or ("values", "%s: the model list returns outputs although on its own %s" % (op, av))
+                    continue
+                if len(lv) != len(kinds):
+                    bad = bad or ("shape", "%s: %d outputs for %d members" % (op, len(lv), len(kinds)))
+                    continue
+                for i in range(len(kinds)):
+                    for what, got, want in zip(("mean", "covariance"), lv[i], av[i]):
+                        n += 1
+                        if tuple(got.shape) != tuple(want.shape):
+                            bad = bad or ("shape", "%s: %s of output %d has shape %s, member %d (%s, batch shape %s) on its own gives %s" % (
+                                op, what, i, tuple(got.shape), i, kinds[i], tuple(shapes[i]), tuple(want.shape)))
+                            continue
+                        good, why = core.close(got, want, *MTOL)
+                        if not good:
+                            bad = bad or ("values", "%s: %s of output %d differs from member %d (%s, batch shape %s) on its own: %s" % (
+                                op, what, i, i, kinds[i], tuple(shapes[i]), why))
+            r = _result("modellist", nm, mode, case, seed, bad and bad[0], bad[1] if bad else "", n, extra)
+            r["nontrivial"] = n > 0
+            r["both_raise"] = both_raise
+            out.append(r)
         # SumMarginalLogLikelihood = mean of the members' mlls (element b: every member read at its un-broadcast index)
         bad = None
-        if len(shapes) == 3:
-            if tuple(smll.shape) != tuple(case["out"]):
-                bad = ("shape", "SumMarginalLogLikelihood has shape %s, the members' batch shapes broadcast to %s" % (tuple(smll.shape), tuple(case["out"])))
-            else:
-                for rep in case["reps"]:
-                    want = (mlls[0][tuple(rep["p"])] + mlls[1][tuple(rep["d1"])] + mlls[2][tuple(rep["d2"])]) / 3
-                    good, why = core.close(smll[tuple(rep["b"])], want, *MTOL)
-                    if not good:
-                        bad = ("values", "element %s is not the mean of the members' marginal log likelihoods: %s" % (rep["b"], why))
-                        break
+        (ls, lv), (as_, av) = sides["sum_mll"]
+        if ls == "raises" and as_ == "raises":
+            pass
+        elif ls == "raises" or as_ == "raises":
+            bad = ("raises", "SumMarginalLogLikelihood raises %s; the members' own marginal log likelihoods: %s" % (lv if ls == "raises" else "-", av if as_ == "raises" else "fine"))
         else:
-            want = sum(mlls) / len(mlls)
-            good, why = core.close(smll, want, *MTOL)
-            if not good:
-                bad = ("values", "not the mean of the members' marginal log likelihoods: %s" % why)
-        out.append(_result("modellist", nm, "sum-mll", key_case, seed, bad and bad[0], bad[1] if bad else "", len(case["reps"]), dict(members=item["members"])))
+            smll, mlls = lv[0], av
+            wrong = [i for i, m_ in enumerate(mlls) if tuple(m_.shape) != tuple(shapes[i])]
+            if wrong:
+                bad = ("shape", "the marginal log likelihood of member %d on its own has shape %s, its batch shape is %s" % (
+                    wrong[0], tuple(mlls[wrong[0]].shape), tuple(shapes[wrong[0]])))
+            elif len(shapes) == 3:
+                if tuple(smll.shape) != tuple(case["out"]):
+                    bad = ("shape", "SumMarginalLogLikelihood has shape %s, the members' batch shapes broadcast to %s" % (tuple(smll.shape), tuple(case["out"])))
+                else:
+                    for rep in case["reps"]:
+                        want = (mlls[0][tuple(rep["p"])] + mlls[1][tuple(rep["d1"])] + mlls[2][tuple(rep["d2"])]) / 3
+                        good, why = core.close(smll[tuple(rep["b"])], want, *MTOL)
+                        if not good:
+                            bad = ("values", "element %s is not the mean of the members' marginal log likelihoods: %s" % (rep["b"], why))
+                            break
+            else:
+                good, why = core.close(smll, sum(mlls) / len(mlls), *MTOL)
+                if not good:
+                    bad = ("values", "not the mean of the members' marginal log likelihoods: %s" % why)
+        both = ls == "raises" and as_ == "raises"
+        r = _result("modellist", nm, "sum-mll", case, seed, bad and bad[0], bad[1] if bad else "", 0 if both else len(case["reps"]) if len(shapes) == 3 else 1, extra)
+        r["nontrivial"] = not both
+        r["both_raise"] = both
+        out.append(r)
     return out
 
 
@@ -754,7 +1096,7 @@ def selfcheck_worker(item):
 
 
 # =============================================================================================
-WORKERS = dict(kernel=kernel_worker, mean=mean_worker, likelihood=likelihood_worker, exact=exact_worker, svgp=svgp_worker,
+WORKERS = dict(kernel=kernel_worker, struct=struct_worker, mean=mean_worker, likelihood=likelihood_worker, exact=exact_worker, svgp=svgp_worker,
                modellist=modellist_worker, selfcheck=selfcheck_worker)
 
 
@@ -776,7 +1118,10 @@ def run(ck):
     ck.rule = ("cases = every (parameter batch shape P, data batch shapes D1, D2) of rank 0..2 over sizes {1,2,3} that broadcasts (TLC, exhaustive), "
                "times every element b of the broadcast batch, times every batch-capable module and evaluation mode; one evaluation = one element "
                "of a batched output compared with its non-batched replica; distinct = distinct (module, mode, P, D1, D2); non-trivial = the "
-               "broadcast batch has at least two elements (cross-talk is observable)")
+               "broadcast batch has at least two elements (cross-talk is observable).  Composite kernels: the triple read as (A, B, D) = the batch "
+               "shapes owned by the nodes of the kernel tree and the data batch, times every row count of the case's size-coincidence classes "
+               "(generic, = feature size, = size of a batch axis), times diag / lazy diagonal / full evaluation.  Model lists: every sequence of "
+               "member kinds of length 1..3 (TLC), each on triples of member batch shapes, times every operation of the list")
     ck.assumptions = [
         "replica = a freshly constructed non-batched module of the same class holding slice ShUnb(b, P) of every parameter and buffer "
         "(a parameter of a sub-module built without batch shape is shared), applied to slices ShUnb(b, D1), ShUnb(b, D2) of the data",
@@ -789,18 +1134,31 @@ def run(ck):
         "the mean of a likelihood marginal may be stored un-broadcast; it is compared after broadcasting it to the batch shape of the covariance",
         "k(x1) and k(x1, diag=True) (x2 omitted) are evaluated under no_grad: with parameters that require grad the zero distance of a point "
         "to itself carries sqrt(eps) rounding noise (1e-8) in non-squared-distance kernels, batched or not",
-        "IndependentModelList: the three members have batch shapes P, D1, D2; SumMarginalLogLikelihood broadcasts their mlls",
+        "IndependentModelList: the members have batch shapes P, D1, D2, likelihood kinds from Batch.tla MemberKinds (Gaussian, fixed noise, fixed noise + "
+        "learned noise) and a different mean / kernel per position; output i of __call__ (train, eval), likelihood, get_fantasy_model (noise list with "
+        "None for the members without fixed noise; with and without fast_pred_var) is compared with the same operation on a deep copy of member i "
+        "on its own (when the member on its own raises, the list raising too is agreement); SumMarginalLogLikelihood broadcasts the members' mlls",
+        "composite kernels: a node built with batch_shape=A owns A; the parameters of a ScaleKernel have the batch shape of the kernel under it "
+        "broadcast with what it owns (ScaleKernel.__init__ sizes outputscale by the batch_shape property): the replica holds slice ShUnb(b, .) of "
+        "every parameter by the batch shape that parameter has (A, B or broadcast(A, B))",
+        "size coincidences: the replay uses NPTS = 4 rows (the size of no batch axis and not the feature size) and, for the composite kernels and "
+        "%d kernels of the plain catalogue, additionally rows = 2 (= feature size) and rows = the size of every axis of P, D1, D2; x2 has 3 rows" % len(CO_KERNELS),
+        "lazy-diag: k(x1, x2).diagonal() (what MultivariateNormal.variance reads) against the same call on the replica; not for IndexKernel, whose "
+        "forward ignores diag (its lazy diagonal raises, batched or not)",
         "derivative kernels (RBFKernelGrad, ...), structured kernels (Grid*, InducingPoint), HammingIMQ and the deprecated last_dim_is_batch "
         "kernels are not claimed batch-broadcast capable and are not replayed",
     ]
     ck.exhaustive = thorough
     ck.explanation = ("TLC enumerates the 2197 triples exhaustively in both tiers (1021 broadcast, 1176 are rejected); thorough replays every module "
                       "and mode on every triple and every element, quick does so for %d kernels, the means and the likelihood, and replays the "
-                      "other kernels and the models on a seeded subset of the triples (every element of each)" % len(QUICK_FULL_KERNELS))
+                      "other kernels and the models on a seeded subset of the triples (every element of each); composite kernels: quick replays %d of "
+                      "%d on every triple whose two node shapes are not both non-empty and different (inherit / own / both / none) and samples the "
+                      "rest; every configuration of member kinds of the model lists is replayed in both tiers" % (
+                          len(QUICK_FULL_KERNELS), len(STRUCT_QUICK_FULL), len(struct_catalogue())))
     import time
     timing = {}
     t0 = time.time()
-    cases, rejected, preds = run_tlc(ck)
+    cases, rejected, preds, configs = run_tlc(ck)
     timing["tlc"] = round(time.time() - t0, 1)
     ck.section("tlc", broadcastable_triples=len(cases), rejected_triples=len(rejected), elements=sum(len(c["reps"]) for c in cases))
     seed = ck.seed
@@ -816,10 +1174,23 @@ def run(ck):
         return cs if thorough else [c for c in cs if rnd.random() < frac]
     for si, s in enumerate(seeds):
         for name in kernel_catalogue():
-            cs_k = cases if (name in QUICK_FULL_KERNELS and si == 0) or (thorough and si == 0) else some(cases, 0.15) if not thorough else \
+            cs_k = cases if (name in QUICK_FULL_KERNELS and si == 0) or (thorough and si == 0) else some(cases, 0.12) if not thorough else \
                 [c for c in cases if rnd.random() < 0.3]
             for (P,), cs in _group(cs_k, ["P"]).items():
                 items.append(dict(kind="kernel", name=name, P=list(P), seed=s, cases=cs, thorough=thorough))
+        # composite kernels: the triple read as (A, B, D)
+        for name in struct_catalogue():
+            full = name in STRUCT_QUICK_FULL
+            if si > 0:
+                continue
+            if thorough:
+                cs_s = cases if name in STRUCT_QUICK_FULL else [c for c in cases if placement(c["P"], c["D1"]) != "mixed" or rnd.random() < 0.15]
+            elif full:
+                cs_s = [c for c in cases if placement(c["P"], c["D1"]) != "mixed" or rnd.random() < 0.1]
+            else:
+                cs_s = [c for c in cases if rnd.random() < (0.05 if placement(c["P"], c["D1"]) != "mixed" else 0.02)]
+            for (A, B), cs in _group(cs_s, ["P", "D1"]).items():
+                items.append(dict(kind="struct", name=name, A=list(A), B=list(B), seed=s, cases=cs, thorough=thorough, full=full))
         for name in mean_catalogue():
             for (P,), cs in _group(unary, ["P"]).items():
                 items.append(dict(kind="mean", name=name, P=list(P), seed=s, cases=cs))
@@ -831,21 +1202,46 @@ def run(ck):
         for (P, D1), cs in _group(cases, ["P", "D1"]).items():
             cs = [c for c in cs if thorough or c["D1"] == c["D2"] or rnd.random() < 0.3]
             if cs:
-                items.append(dict(kind="exact", variant=variant, P=list(P), D1=list(D1), seed=seeds[0], cases=cs))
+                # quick: a quarter of the groups run the variant whose kernel inherits its batch shape instead of the first one
+                v = INHERITING_EXACT if not thorough and rnd.random() < 0.25 else variant
+                items.append(dict(kind="exact", variant=v, P=list(P), D1=list(D1), seed=seeds[0], cases=cs))
     for vi, variant in enumerate(sv if thorough else sv[:1]):
         for (P, D2), cs in _group(some(cases, 0.3), ["P", "D2"]).items():
             items.append(dict(kind="svgp", variant=variant, P=list(P), D2=list(D2), seed=seeds[0], cases=cs))
-    sub = some(cases, 0.1)
-    for i in range(0, len(sub), 8):
-        items.append(dict(kind="modellist", members=3, seed=seeds[0], cases=sub[i:i + 8]))
-    items.append(dict(kind="modellist", members=1, seed=seeds[0], cases=sub[:8]))
-    items.append(dict(kind="modellist", members=2, seed=seeds[0], cases=sub[8:24]))
+    # model lists: every configuration of member kinds of Batch.tla (thorough: each on several triples; quick: the triples of a 10% sample
+    # take the configurations in turn, heterogeneous ones first)
+    by_len = {k: [c for c in configs if len(c["kinds"]) == k] for k in (1, 2, 3)}
+    for k in by_len:
+        by_len[k].sort(key=lambda c: (not c["variant_leaks"], not c["hetero"], c["kinds"]))
+    sub = some(cases, 0.06) if not thorough else [c for c in cases if rnd.random() < 0.25]
+    need = len(configs) + 12
+    if len(sub) < need:
+        sub = sub + [c for c in cases if not any(c is x for x in sub)][:need - len(sub)]
+
+    if not all(by_len.values()):
+        raise core.Machinery("Batch.tla (Family = list) dumped no configuration of some length: %s" % {k: len(v) for k, v in by_len.items()})
+
+    def deal(cs, k):
+        return [by_len[k][j % len(by_len[k])] for j in range(len(cs))]
+    n1, n2 = (len(by_len[1]), len(by_len[2]) + 4) if not thorough else (4 * len(by_len[1]), 4 * len(by_len[2]))
+    parts = [(1, sub[:n1]), (2, sub[n1:n1 + n2]), (3, sub[n1 + n2:])]
+    replayed_configs = set()
+    for k, cs in parts:
+        cf = deal(cs, k)
+        replayed_configs.update(tuple(c["kinds"]) for c in cf)
+        for i in range(0, len(cs), 6):
+            items.append(dict(kind="modellist", seed=seeds[0], cases=cs[i:i + 6], configs=cf[i:i + 6]))
+    missing = [c["kinds"] for c in configs if tuple(c["kinds"]) not in replayed_configs]
+    if missing:
+        ck.vacuous("model lists: %d of %d configurations of member kinds were not replayed, e.g. %s" % (len(missing), len(configs), missing[0]))
     rnd.shuffle(items)
     t0 = time.time()
     results = core.pmap(_dispatch, items, chunksize=1)
     timing["replay"] = round(time.time() - t0, 1)
     # prediction (Batch.tla sites) against observation, per (kernel, mode, triple)
     pred_of = {(tuple(c["P"]), tuple(c["D1"]), tuple(c["D2"])): c["pred"] for c in cases}
+    case_of = {(tuple(c["P"]), tuple(c["D1"]), tuple(c["D2"])): c for c in cases}
+    structs = struct_catalogue()
     conf = {}
     counts = {}
     for r in results:
@@ -857,13 +1253,33 @@ def run(ck):
         d["cells"] += 1
         d["element_comparisons"] += r.get("n", 1)
         d["failing_cells"] += 0 if r["ok"] else 1
+        if kind == "modellist":
+            d["cells_where_list_and_member_both_raise"] = d.get("cells_where_list_and_member_both_raise", 0) + (1 if r.pop("both_raise", False) else 0)
         if kind != "kernel":
             continue
         name, mode, P, D1, D2 = cell
-        sites = kernel_sites(name, mode)
-        bad_sites = [s for s in sites if pred_of[(P, D1, D2)][s] != "ok"
-                     # diag of k(x, x): the distance is exactly 0 and a mis-aligned alpha cannot change a value, only the shape
-                     and not (mode == "diag-self" and s == "rq_alpha_diag" and pred_of[(P, D1, D2)][s] == "values")]
+        if name in structs:
+            # composite kernels: Batch.tla's structure predictions (the cells of the case whose outcome is not ok)
+            if mode == "batch_shape":
+                continue
+            d2 = counts.setdefault("kernel-structure", dict(cells=0, element_comparisons=0, failing_cells=0, cells_on_a_size_coincidence=0,
+                                                            cells_where_variant_diag_own_batch_differs=0))
+            d2["cells"] += 1
+            d2["element_comparisons"] += r.get("n", 1)
+            d2["failing_cells"] += 0 if r["ok"] else 1
+            base, n = mode_rows(mode)
+            mk = {"diag": "diag", "diag-self": "diag", "lazy-diag": "lazydiag", "self": "self"}.get(base, "full")
+            cs = case_of[(P, D1, D2)]
+            d2["cells_on_a_size_coincidence"] += 1 if any(x["n"] == n and x["batch"] for x in cs["rows"]) else 0
+            d2["cells_where_variant_diag_own_batch_differs"] += 1 if any(x[0] == structs[name][1] and x[1] == mk and x[2] == n and x not in cs["sbad"]
+                                                                         for x in cs["vbad"]) else 0
+            bad_sites = ["structure " + structs[name][1]] if any(
+                x[0] == structs[name][1] and x[1] == mk and x[2] == (n if mk in ("diag", "lazydiag") else NPTS) for x in cs["sbad"]) else []
+        else:
+            sites = kernel_sites(name, mode)
+            bad_sites = [s for s in sites if pred_of[(P, D1, D2)][s] != "ok"
+                         # diag of k(x, x): the distance is exactly 0 and a mis-aligned alpha cannot change a value, only the shape
+                         and not (mode_rows(mode)[0] == "diag-self" and s == "rq_alpha_diag" and pred_of[(P, D1, D2)][s] == "values")]
         for s in (bad_sites or ["<no site predicts a failure>"]):
             e = conf.setdefault(s, dict(predicted_and_failed=0, predicted_but_passed=0, unpredicted_failure=0, examples=[]))
             if bad_sites and not r["ok"]:
@@ -892,9 +1308,14 @@ def run(ck):
     ck.extra["timing_s"] = timing
     for kind, d in counts.items():
         ck.section(kind, **d)
-    for need in ("kernel", "mean", "likelihood", "exact", "svgp", "modellist"):
+    for need in ("kernel", "kernel-structure", "mean", "likelihood", "exact", "svgp", "modellist"):
         if not counts.get(need, {}).get("cells"):
             ck.vacuous("no %s cell was replayed" % need)
+    if not counts.get("kernel-structure", {}).get("cells_where_variant_diag_own_batch_differs") and "call_diag" in REPAIRED:
+        ck.vacuous("no replayed composite-kernel cell lies where Batch.tla tells the variant diag_own_batch from the code")
+    ml = counts.get("modellist", {})
+    if ml.get("cells") and ml.get("cells_where_list_and_member_both_raise", 0) * 4 > ml["cells"]:
+        ck.vacuous("model lists: in %d of %d cells the members raise on their own" % (ml["cells_where_list_and_member_both_raise"], ml["cells"]))
     # samples: a broadcasting case with its replica indices
     shown = 0
     for r in results:
@@ -911,10 +1332,31 @@ def run(ck):
 def replay(rep):
     torch = core.setup_torch()
     c = rep["case"]
+    if "arg" in c and "case" not in c:       # a cell recorded by harness.core when the library raised outside a guarded call: re-run the item
+        try:
+            res = _dispatch(c["arg"])
+        except core.Machinery:
+            raise
+        except Exception as e:  # noqa
+            print("VIOLATION property=C08 replay=- :: %s :: the library raised %s: %s" % (rep.get("signature"), type(e).__name__, str(e)[:300]))
+            return 1
+        bad = [r for r in res if r.get("machinery") or not r.get("ok", True)]
+        for r in bad:
+            print("VIOLATION property=C08 replay=- :: %s :: %s" % (r.get("sig", "machinery"), r.get("detail", r.get("machinery"))))
+        if not bad:
+            print("replay passed")
+        return 1 if bad else 0
     case = dict(c["case"])
     case.setdefault("pred", {})
     kind, name, seed = c["kind"], c["name"], c["seed"]
-    if kind == "kernel":
+    if kind == "kernel" and name in struct_catalogue():
+        make = struct_catalogue()[name][0]
+        kb = _randomize(torch, make(tuple(case["P"]), tuple(case["D1"])), _gen(torch, seed, "params", name, case["P"], case["D1"]))
+        if c["mode"] == "batch_shape":
+            res = struct_worker(dict(name=name, A=case["P"], B=case["D1"], seed=seed, cases=[case], thorough=True, full=True))[:1]
+        else:
+            res = [kernel_cell(torch, name, make, "real", kb, {}, case, c["mode"], seed, struct=True)]
+    elif kind == "kernel":
         make, dk = kernel_catalogue()[name][:2]
         kb = _randomize(torch, make(tuple(case["P"])), _gen(torch, seed, "params", name, case["P"]))
         res = [kernel_cell(torch, name, make, dk, kb, {}, case, c["mode"], seed)]
@@ -923,12 +1365,12 @@ def replay(rep):
     elif kind == "likelihood":
         res = likelihood_worker(dict(P=case["P"], seed=seed, cases=[case]))
     elif kind == "exact":
-        ycase = dict(case, D2=case["D1"]) if c["mode"] in ("prior-mean", "prior-covariance", "mll") else case
+        ycase = dict(case, D2=case["D1"]) if c["mode"] in ("prior-mean", "prior-covariance", "mll", "prior-variance") else case
         res = exact_worker(dict(variant=name, P=case["P"], D1=case["D1"], seed=seed, cases=[ycase]))
     elif kind == "svgp":
         res = svgp_worker(dict(variant=name, P=case["P"], D2=case["D2"], seed=seed, cases=[case]))
     elif kind == "modellist":
-        res = modellist_worker(dict(members=c.get("members", 3), seed=seed, cases=[case]))
+        res = modellist_worker(dict(seed=seed, cases=[case], configs=[c["config"]]))
     else:
         print("MACHINERY-FAILURE unknown replay kind", kind)
         return 2
